@@ -378,3 +378,34 @@ def c15(ctx):
                   "points agree)",
                   assumptions=["the private matrix is observed through torques_from_vector(unit vectors)",
                                "allowed error 20*eps*(1+reach): second-order term of the forward difference"])
+
+
+# ----------------------------------------------------------------------------- C17
+@check("C17")
+def c17(ctx):
+    consts = {"K1": "{0, 1, 3, 5, 6, 8, 9, 10}", "K2": "{0, 1, 3, 6, 10}"} if ctx.quick else \
+        {"K1": "{0, 1, 2, 3, 4, 5, 6, 7, 8, 9, 10, 11}", "K2": "{0, 1, 2, 3, 4, 5, 6, 7, 8, 9, 10, 11}"}
+    g = tlc(ctx, "Gen_Frame3", constants=consts, workers=8)
+    lines = tlc_json_lines(g["out"], "frame3")
+    if not lines:
+        raise core.ToolError("Gen_Frame3 printed nothing")
+    write_ndjson(ctx.path("f3.ndjson"), lines)
+    opwv(ctx, ["replay", "frame3", ctx.path("f3.ndjson"), ctx.path("f3.out")])
+    st = replay_results(ctx, ctx.path("f3.out"), "C17")
+    ctx.evaluations += st.get("evaluations", 0)
+    ctx.traces += len(lines)
+    for ln in lines:
+        if not ln["collinear"]:
+            ctx.nontrivial.add(json.dumps([ln["p"], ln["motion"]]))
+    opwv(ctx, ["record", "ftrans", ctx.path("ftrans.trace")])
+    viols, done = trace_validate(ctx, "Trace_Frame", ctx.path("ftrans.trace"))
+    viols_to_ctx(ctx, viols, ctx.path("ftrans.trace"), "C17")
+    ev = read_ndjson(ctx.path("ftrans.trace"))
+    ctx.evaluations += len(ev)
+    ctx.sample(ev[0])
+    ctx.exhaustive = True
+    return finish(ctx, rule="7 integer point triples (generic, far from the origin, nearly collinear, collinear, coincident) x lattice "
+                  "rotations RotZ(k1)*RotX(k2) x 3 translations generated by TLC with the exact images (Gen_Frame3); the frame built "
+                  "from each pair must equal the generating motion; perturbation families per behaviour: +3 mm / +8 mm along an edge, "
+                  "mirrored target, exactly collinear target with a 1 mm-off source; plus forward_transformed events (Trace_Frame)",
+                  assumptions=["tolerance 1e-9 (1e-6 for the nearly collinear triple whose normal is ill conditioned)"])
